@@ -182,6 +182,19 @@ class OpCtxW(_IntOp):
         return IntData(data.data + 1)
 
 
+class OpCtxP(_IntOp):
+    """x + addend; writes the declared context key 'last' = addend (a context-writing operation WITH a parameter)"""
+
+    @classmethod
+    def context_keys(cls):
+        return ["last"]
+
+    def _process_logic(self, data, addend: int):
+        LOG.append(("OpCtxP", {"addend": addend}))
+        self._notify_context_update("last", addend)
+        return IntData(data.data + addend)
+
+
 class OpCtxBad(_IntOp):
     """writes a context key it does not declare"""
 
@@ -401,7 +414,7 @@ def register() -> None:
     """Make the library resolvable by name (sweeps resolve `collection` through the registry)."""
     from semantiva.registry.processor_registry import ProcessorRegistry
 
-    for cls in (IntData, SubIntData, OtherData, IntColl, IntColl2, OpTwoB, OpNest, OpNestB, SrcV, SrcD, PSrc, OpAdd, OpAddDef, OpAff, OpTwo, OpCtxW, OpCtxBad, OpToOther, OpSub, OpSubDecl, OpNeedSub, OpBoom, OpMkColl, OpSum, PrVal, PrParam, PrReq, Snk, PSnk, CpSum, CpBad):
+    for cls in (IntData, SubIntData, OtherData, IntColl, IntColl2, OpTwoB, OpNest, OpNestB, SrcV, SrcD, PSrc, OpAdd, OpAddDef, OpAff, OpTwo, OpCtxW, OpCtxP, OpCtxBad, OpToOther, OpSub, OpSubDecl, OpNeedSub, OpBoom, OpMkColl, OpSum, PrVal, PrParam, PrReq, Snk, PSnk, CpSum, CpBad):
         ProcessorRegistry.register_processor(cls.__name__, cls)
 
 
